@@ -269,6 +269,64 @@ def build(run):
     run.function(do_comparison_check)
     run.add("complex-mode/entry-point(real-part operands, repeated application)", cm_entry, kind="values")
 
+    # ---- the whole complex-mode pipeline: passes that run AFTER the comparison check (derivative expansion, lowering) introduce comparisons of
+    # their own (sign, abs', conditionals of min/max derivatives): every ordering comparison in the preprocessed form has real-valued operands
+    def cm_pipeline():
+        from ufl import Coefficient, TestFunction, TrialFunction, conj, derivative, diff, dx, grad, inner, real, sign, sqrt, variable
+        from ufl.algorithms import compute_form_data
+        from ufv import elements as E
+        from ufv.terms import atoms_hook
+        V = ufl.FunctionSpace(tri, E.LagrangeElement(ufl.triangle, 2))
+        f, g = Coefficient(V), Coefficient(V)
+        u, v = TrialFunction(V), TestFunction(V)
+        forms = [
+            ("derivative of |f|", lambda: derivative(abs(f) * conj(v) * dx, f, u)), ("derivative of |f|^3", lambda: derivative(abs(f) ** 3 * conj(v) * dx, f, u)),
+            ("derivative of |f g|", lambda: derivative(abs(f * g) * conj(v) * dx, f, u)), ("second derivative of |f| f^2", lambda: derivative(derivative(abs(f) * f * f * dx, f, conj(v)), f, u)),
+            ("grad |f|", lambda: inner(grad(abs(f)), grad(v)) * dx), ("d|w|/dw of a variable", lambda: (lambda w_: diff(abs(w_) * w_, w_))(variable(f)) * conj(v) * dx),
+            ("sign(real f)", lambda: sign(real(f)) * u * conj(v) * dx), ("derivative of sqrt(|f|+1)", lambda: derivative(sqrt(abs(f) + 1) * conj(v) * dx, f, u)),
+            ("derivative of |grad f|^2 |f|", lambda: derivative(inner(grad(f), grad(f)) * abs(f) * conj(v) * dx, f, u)),
+        ]
+
+        def mk(symbolic, valuation):
+            w = World(symbolic=symbolic, complex_mode=True, valuation=valuation)
+            w.terminal_hook = atoms_hook
+            return w
+        n = 0
+        for name, mkf in forms:
+            try:
+                fd = compute_form_data(mkf(), complex_mode=True)
+            except ComplexComparisonError:
+                n += 1
+                continue            # rejected: allowed
+            except BaseException as ex:  # noqa: BLE001  (ArityMismatch derives from BaseException)
+                if isinstance(ex, (KeyboardInterrupt, SystemExit)):
+                    raise
+                if not deliberate(ex) and not type(ex).__name__ == "ArityMismatch":
+                    return violated(f"crash instead of a result or a refusal: {crash_text(ex)}", reproduced=True, backend="exec")
+                n += 1
+                continue
+            for itd in fd.integral_data:
+                for itg in itd.integrals:
+                    for node in ufl.corealg.traversal.unique_pre_traversal(itg.integrand()):
+                        if isinstance(node, (C.LT, C.GT, C.LE, C.GE, C.MaxValue, C.MinValue)):
+                            for op in node.ufl_operands:
+                                w = mk(True, None)
+                                try:
+                                    val = den(w, op, (), {})
+                                except Unsupported as ex:
+                                    return undecided(f"cm_pipeline {name}: {ex}")
+                                vr = prove_equal(w, N.imag(val), 0, 10000)
+                                n += 1
+                                if vr.status == "refuted":
+                                    return violated(f"complex mode: the preprocessed form of '{name}' contains the ordering comparison {node} whose operand {op} can have a "
+                                                    f"non-zero imaginary part ({vr.model}): it was neither rejected nor made real",
+                                                    replay={"form": name, "comparison": str(node), "operand": str(op), "model": vr.model}, reproduced=True, backend=vr.backend)
+                                if vr.status != "proved":
+                                    return undecided(f"cm_pipeline {name}: {vr.backend} {vr.detail}")
+        return proved("z3", vcs=n, sample=f"{len(forms)} forms through compute_form_data(complex_mode=True): every surviving ordering comparison has real-valued operands "
+                                           "for all complex coefficient values")
+    run.add("complex-mode/preprocessed-forms-compare-real-values-only", cm_pipeline, kind="values")
+
     def canary():
         a = Opq("a")    # complex-valued opaque: Im need not vanish -> must be refuted
         w = complex_world()(True, None)
